@@ -142,3 +142,37 @@ def check(ctx):
                             if not err <= 1e-6:
                                 ctx.fail("oracle", f"C05/oracle/recovery/order{m}", f"{P.sc['name']} orders {orders} compact={compact} batch_size={bs} atom_batches={nb}: fc{m} not recovered (relative error {err:.2e})",
                                          replay={**P.describe(), "orders": list(orders), "compact": compact, "batch_size": bs, "atom_batches": nb, "disps": d.tolist(), "truth_coefs": "random on expanded basis", "rel_err": err}, has_input=True)
+
+    # ---- ground truths drawn from the INDEPENDENT reference admissible space (reference.py), small cells
+    import spglib
+    from reference import atom_perm_by_matching, projector_onto_admissible
+    for cname, diag in [("mono_P", (1, 1, 1)), ("tri2_P1", (1, 1, 1))] + ([] if ctx.quick else [("tri1", (2, 1, 1)), ("tri2_Pm1", (1, 1, 1))]):
+        P = Prepared(cname, diag, rng, shuffle=False)
+        sc = P.sc
+        L = np.asarray(sc["lattice"], float)
+        ops = spglib.get_symmetry((sc["lattice"], sc["positions"], sc["numbers"]))
+        G = [(atom_perm_by_matching(L, sc["positions"], sc["numbers"], r, t), L.T @ r @ np.linalg.inv(L.T)) for r, t in zip(ops["rotations"], ops["translations"])]
+        for m in (2, 3, 4):
+            if P.N ** m * 3 ** m > 1400:
+                continue
+            Q = projector_onto_admissible(P.N, m, G)
+            if Q.shape[1] == 0:
+                continue
+            c = rng.normal(size=Q.shape[1])
+            truth = {m: (Q @ c).reshape((P.N,) * m + (3,) * m)}
+            n = 3 * int(np.ceil(Q.shape[1] / (3 * P.N))) + 6
+            d = rng.normal(size=(n, P.N, 3)) * 0.1
+            f = forces_from_fc(truth, d)
+            ctx.case({"cell": sc["name"], "independent_truth_order": m, "admissible_dim": int(Q.shape[1]), "basis_dim": int(P.nb[m])}, nontrivial=True)
+            ctx.count("recovery-independent-truth")
+            key = "C05/order4/pattern-aabb" if m == 4 else f"C05/oracle/recovery-independent/order{m}"
+            try:
+                o = P.new(d, f)
+                o.solve(orders=[m], is_compact_fc=False)
+                got = o.force_constants[m]
+                err = float(np.abs(got - truth[m]).max() / max(np.abs(truth[m]).max(), 1e-300))
+            except Exception as e:  # noqa: BLE001
+                err = float("inf")
+            if not err <= 1e-6:
+                ctx.fail("oracle", key, f"{sc['name']}: admissible fc{m} drawn from the independent reference space (dimension {Q.shape[1]}, basis has {P.nb[m]}) is not recovered from exact forces (relative error {err:.2e})",
+                         replay={**P.describe(), "order": m, "truth": "random vector of the reference admissible space", "rel_err": err}, has_input=True)
